@@ -43,6 +43,12 @@ CHECKS = {
         note="Trusted: pyvc, z3. Assumed: cheatcode calls are recognised by the literal address (as SEVM.call does); deepcopy carries the caller's record across calls; store/load/etch arms are not under contract (they go through sstore/sload/set_code: C08); ByteVec operations used by the encoders run through the interpreter on concrete layouts; independence of created symbols rests on label uniqueness via the proved counter (uid() not relied on).",
         technique="state-machine and encoder contracts: VCs from the real source AST (pyvc) over symbolic addresses/words, handle() fragments composed with run() reading arms, syntactic site check, z3",
     ),
+    "C15": dict(
+        text="Deductive per function (the global coverage statement is NOT claimed): the body of _compute_frontier's loop over post-states is executed as a fragment for every kind of post-state and each is proved to be exactly one of stuck (logged, dropped) / reverted without assertion failure (dropped) / assertion failure (handed to the solver once with a description naming the function, unless that probe was reported; not explored further) / already visited (dropped) / new (call sequence = previous + this call, fresh 64-bit timestamp constrained unsigned-non-decreasing for every previous timestamp, appended to the next frontier and yielded); run_target_contract calls every selected function once with fresh symbolic origin/sender (160 bits) and value (256 bits), restricts the sender exactly to targetSender minus excludeSender (else not-excluded, else free; proved as an SMT equivalence for five configurations), and survives a failing function; get_frontier cache; __main__.run_message visits depths 0..d and every state; resolve_target_contracts / resolve_target_selectors agree with Foundry's filter algebra exhaustively over small universes (2048 + 32 configurations); snapshot_state's hashed streams consist of the balance term id, code identities, storage keys/value ids and exactly the sliced path condition ids. One defect repaired (signed timestamp comparison), one recorded as a known finding (partial frontier served from the cache after an early stop).",
+        ref="DESIGN.md 4/C15 and 12",
+        note="NOT CLAIMED: `every sequence of at most d calls is represented among the explored states` - this follows from these contracts and C02 only if SEVM.run explores every pushed state (worklist protocol, not under contract). Trusted: pyvc, z3, Foundry's rules as transcribed. Assumed: 64-bit hash collisions absent; small-universe exhaustiveness for the set algebra; the call itself is C02/C09/C10 material.",
+        technique="fragment/function VCs from the real source AST (pyvc) with callee contracts; exhaustive small-universe comparison for the filter algebra; recorded hash streams; z3",
+    ),
     "C16": dict(
         text="Deductive, with ghost state meaning: id -> condition: (1) Path.to_smt2 with caching pins every condition whose z3 id is exported as an assertion name in a module-level registry that the module never shrinks, so by the external contract of get_id (unique among live terms) an id never changes meaning; (2) from_result attaches the core parsed from the same output iff the answer is unsat and caching is on; (3) the callback records a core only for unsat and only if non-empty; append_unsat_core stores it where solve_end_to_end looks; (4) check_unsat_cores is True iff some recorded core is a subset of the query's ids (every membership combination, symbolic); (5) solve_end_to_end answers unsat without a solver only on such a hit and otherwise returns the solver's (or the refined query's) answer. With solver soundness this gives: a cached unsat is only given to a query containing a set of conditions a solver proved unsatisfiable. A genuine defect (id reuse after garbage collection gave a false hit) was found by this obligation, replayed natively and repaired.",
         ref="DESIGN.md 4/C16 and 11",
